@@ -9,64 +9,7 @@ import ast
 import copy
 from dataclasses import dataclass
 
-ANCHORS: dict[str, list[str]] = {
-    "C01": ["gallia.services.uds.core.service.*Request.pdu", "gallia.services.uds.core.service.*Request._from_pdu",
-            "gallia.services.uds.core.service.*Request.__init__", "gallia.services.uds.core.utils.sub_function_split",
-            "gallia.services.uds.core.utils.address_and_size_length"],
-    "C02": ["gallia.services.uds.core.service.*Response.pdu", "gallia.services.uds.core.service.*Response._from_pdu",
-            "gallia.services.uds.core.service.*Response._check_pdu", "gallia.services.uds.core.service.*Response.__init__"],
-    "C03": ["gallia.services.uds.core.service.*Response.matches", "gallia.services.uds.helpers.parse_pdu",
-            "gallia.services.uds.core.service.RawPositiveResponse.service_id", "gallia.services.uds.core.service.SpecializedSubFunctionService._sub_function_type",
-            "gallia.services.uds.core.service.UDSRequest.parse_dynamic", "gallia.services.uds.core.service.UDSRequest.from_pdu"],
-    "C04": ["gallia.services.uds.core.client.UDSClient.request_unsafe"],
-    "C05": ["gallia.services.uds.core.client.UDSClient._request", "gallia.services.uds.core.client.UDSClient.reconnect",
-            "gallia.services.uds.ecu.ECU._tester_present_worker"],
-    "C06": ["gallia.transports.doip.DoIPConnection.*", "gallia.transports.doip.DoIPTransport.*", "gallia.transports.doip.GenericHeader.*"],
-    "C07": ["gallia.transports.hsfz.HSFZConnection.*", "gallia.transports.hsfz.HSFZHeader.*"],
-    "C08": ["gallia.transports.base.BaseTransport.reconnect", "gallia.transports.doip.DoIPConnection.close", "gallia.transports.hsfz.HSFZConnection.close",
-
-            "gallia.transports.tcp.TCPTransport.*", "gallia.transports.unix.UnixTransport.*", "gallia.transports.base.LinesTransportMixin.*"],
-    "C09": ["gallia.commands.scan.uds.sessions.SessionsScanner.main", "gallia.commands.scan.uds.sessions.SessionsScanner._recover_stack",
-            "gallia.commands.scan.uds.sessions.SessionsScanner.set_session_with_hooks_handling"],
-    "C10": ["gallia.commands.scan.uds.services.ServicesScanner.perform_scan", "gallia.commands.scan.uds.identifiers.ScanIdentifiers.perform_scan",
-            "gallia.utils.unravel_2d", "gallia.services.uds.ecu.ECU.check_and_set_session"],
-    "C11": ["gallia.services.uds.ecu.ECU._request", "gallia.db.handler.DBHandler.insert_scan_result", "gallia.db.handler.DBHandler.disconnect",
-            "gallia.db.handler.DBHandler.connect"],
-    "C12": ["gallia.services.uds.server.DBUDSServer.respond_after_default", "gallia.services.uds.server.UDSServer.update_state", "gallia.services.uds.ecu.ECU.update_state"],
-    "C13": ["gallia.services.uds.server.UDSServer.default_response_if_*", "gallia.services.uds.server.UDSServer.respond", "gallia.services.uds.server.UDSServer.respond_without_state_change",
-            "gallia.services.uds.server.UDSServer._is_sub_function_request", "gallia.services.uds.server.UDSServer._is_sub_function_service"],
-    "C14": ["gallia.services.uds.server.RandomUDSServer.*", "gallia.services.uds.server.UDSServerTransport.handle_request", "gallia.services.uds.server.RNG.random_payload"],
-    "C15": ["gallia.command.base.BaseCommand.entry_point", "gallia.command.base.BaseCommand.run_hook", "gallia.command.base.AsyncScript.run",
-            "gallia.command.base.BaseCommand._db_finish_run_meta", "gallia.log.remove_zst_log_handler"],
-    "C16": ["gallia.services.uds.server.RandomUDSServer.randomize", "gallia.services.uds.server.RandomUDSServer.stateful_rng", "gallia.services.uds.server.RNG.*"],
-    "C17": ["gallia.log.PenlogReader.*", "gallia.log.PenlogPriority.*", "gallia.log._ZstdFileHandler.emit", "gallia.log._ZstdFileHandler.close", "gallia.log.PenlogRecord.parse_*",
-            "gallia.log._JSONFormatter.format"],
-    "C18": ["gallia.cli.gallia._create_parser_from_command", "gallia.command.config.GalliaBaseModel.attributes_from_*", "gallia.config.Config.get_value",
-            "gallia.pydantic_argparse.utils.pydantic.PydanticField.arg_*", "gallia.pydantic_argparse.argparse.parser.ArgumentParser._validation_error",
-            "gallia.command.config.GalliaBaseModel.__init_subclass__"],
-    "C19": ["gallia.transports.base.LinesTransportMixin.*", "gallia.services.uds.server.TCPUDSServerTransport.handle_client"],
-    "C20": ["gallia.net.join_host_port", "gallia.transports.base.TargetURI.from_parts", "gallia.utils.unravel", "gallia.utils.unravel_2d", "gallia.utils.auto_int",
-            "gallia.transports.hsfz.HSFZConfig.auto_int", "gallia.transports.doip.DoIPConfig.auto_int", "gallia.transports.isotp.ISOTPConfig.auto_int"],
-}
-
-# Functions that rules of a property read but that belong to another property's mechanism: behaviour-preserving variants are generated
-# for them (the check must stay silent), mutants are not (their rules live in the other property's check).
-NEUTRAL_EXTRA: dict[str, list[str]] = {
-    "C04": ["gallia.transports.base.BaseTransport.reconnect", "gallia.services.uds.helpers.parse_pdu", "gallia.services.uds.core.client.UDSClient.reconnect_unsafe"],
-    "C05": ["gallia.transports.base.BaseTransport.reconnect", "gallia.transports.base.BaseTransport.request"],
-    "C07": ["gallia.transports.hsfz.HSFZTransport.connect", "gallia.commands.discover.hsfz.HSFZDiscoverer.probe"],
-    "C08": ["gallia.transports.hsfz.HSFZTransport.connect", "gallia.commands.discover.hsfz.HSFZDiscoverer.probe"],
-    "C09": ["gallia.services.uds.core.utils.check_sub_function", "gallia.utils.unravel"],
-    "C10": ["gallia.utils.unravel", "gallia.services.uds.core.client.UDSClient.request_unsafe"],
-    "C11": ["gallia.command.uds.UDSScanner.setup", "gallia.services.uds.core.utils.bytes_repr", "gallia.services.uds.core.service.UDSRequest.from_pdu",
-            "gallia.command.base.BaseCommand.entry_point"],
-    "C12": ["gallia.db.handler.DBHandler.insert_scan_run", "gallia.db.handler.DBHandler.insert_scan_result", "gallia.commands.script.vecu.DbVirtualECU._server",
-            "gallia.services.uds.ecu.ECU._request"],
-    "C13": ["gallia.services.uds.core.service.UDSRequest.parse_dynamic"],
-    "C14": ["gallia.services.uds.server.UDSServer.default_response_if_sub_function_not_supported", "gallia.services.uds.server.UDSServer.update_state",
-            "gallia.services.uds.core.service.UDSRequest.parse_dynamic"],
-    "C19": ["gallia.services.uds.server.UDSServerTransport.handle_request"],
-}
+from sa.anchors import ANCHORS, NEUTRAL_EXTRA  # noqa: E402,F401
 
 FLIP = {ast.Lt: ast.LtE, ast.LtE: ast.Lt, ast.Gt: ast.GtE, ast.GtE: ast.Gt, ast.Eq: ast.NotEq, ast.NotEq: ast.Eq,
         ast.Is: ast.IsNot, ast.IsNot: ast.Is, ast.In: ast.NotIn, ast.NotIn: ast.In}
